@@ -302,6 +302,25 @@ def case_auth(product, key, ptype, poct, ch):
         if o2[0] == 'exc' or o2[1] is None or bytes(o2[1]) != truth:
             return ('%s|read_with_mac|unmodified-read-not-returned' % product,
                     detail), 'wrong'
+    if not want:
+        # After a failed authentication nothing may be accepted as
+        # authenticated data: an attacker who knows the rejected password
+        # (e.g. the public factory key) answers MAC'ed reads with data MAC'ed
+        # under the session key of that password and the challenge seen on
+        # the air.
+        forger = f_model(product, f_key(poct))
+        forger.mem[0] = bytearray(b'FORGED-BLOCK-ONE')
+        forger.mem[1] = bytearray(b'FORGED-BLOCK-TWO')
+        for _, cmd, _, _ in clf.trace:
+            if len(cmd) > 1 and cmd[1] == 0x08:        # RC write, replayed
+                forger.command(bytes(cmd))
+        clf.model = forger
+        clf.arm()
+        o3 = call(tag.read_with_mac, 0, 1)
+        detail['forged_read_after_failure'] = show(o3)
+        if o3[0] == 'ret' and o3[1] is not None:
+            return ('%s|read_with_mac|after-failed-authenticate|'
+                    'returned-forged-data' % product, detail), 'fooled'
     return None, ('True' if want else 'False')
 
 
